@@ -10,11 +10,6 @@ import json, os, re, subprocess, sys, tempfile
 HERE = os.path.dirname(os.path.dirname(os.path.abspath(__file__)))
 
 FINDINGS = {
-    "F-C17-1": {
-        "property": "C17",
-        "tiers": ["quick", "thorough"],
-        "match": lambda r: r["kind"] == "not-exhaustive" and ".." in r["case"]["query"],
-    },
 }
 
 
